@@ -31,10 +31,14 @@ FEEDBACKS = [
     ("get_samples", None, "list[float]", "mutlist"),  # returns the same list object every time, mutated in place
     ("get_log", None, None, "mutstrs"),  # same, without annotation
     ("get_over", None, "int", "int"),  # on c1 this overrides an inherited @feedback of the same name
+    ("get_pattern", None, "int", "pattern"),  # values repeat: X, Y, Y, X, X, X, Y, Y ...
+    ("get_flagpat", None, "bool", "boolpat"),
+    ("get_strpat", None, None, "strpat"),
 ]
+PATTERN = [1, 2, 2, 1, 1, 1, 2, 2, 1, 2]
 FEEDBACKS = [f for f in FEEDBACKS if f[0] != "get_"]
 _MUT = {}
-TYPESTR = {"mutlist": "double[]", "mutstrs": "string[]", "float": "double", "int": "int", "bool": "boolean", "str": "string", "ints": "int[]", "floats": "double[]", "strs": "string[]", "bools": "boolean[]", "rot": "struct:Rotation2d", "rots": "struct:Rotation2d[]"}
+TYPESTR = {"pattern": "int", "boolpat": "boolean", "strpat": "string", "mutlist": "double[]", "mutstrs": "string[]", "float": "double", "int": "int", "bool": "boolean", "str": "string", "ints": "int[]", "floats": "double[]", "strs": "string[]", "bools": "boolean[]", "rot": "struct:Rotation2d", "rots": "struct:Rotation2d[]"}
 
 
 def expected_key(name, key):
@@ -52,6 +56,12 @@ def value_for(kind, n, salt=0, site=None):
             del lst[:]
         lst.append(float(n + salt) if kind == "mutlist" else f"m{n + salt}")
         return lst  # the very same object on every call
+    if kind == "pattern":
+        return PATTERN[(n - 1) % len(PATTERN)] + (salt % 7)
+    if kind == "boolpat":
+        return PATTERN[(n - 1) % len(PATTERN)] == 2
+    if kind == "strpat":
+        return f"p{PATTERN[(n - 1) % len(PATTERN)]}"
     n = n + salt
     return {
         "float": n * 0.5,
@@ -233,16 +243,21 @@ def main(tier, seed):
             for pat in (2, "every") if tier == "quick" else (1, 2, 3, "every"):
                 plans.append({f"{owner}.fb.{name}": pat})
     plans.append({"c0.fb.get_angle": "every", "c1.fb.get_angle": 2, "robot.fb.speed": 2})
+    # getters that raise on several (not necessarily consecutive) calls and must be published again afterwards
+    multi = [{"c0.fb.get_angle": (1, 2, 3)}, {"robot.fb.speed": (2, 4, 6)}, {"c1.fb.get_label": (1, 3, 4, 5)}, {"c0.fb.get_pattern": (2, 3)}]
+    long_hs = ["dddddddd", "tttttttt", "aaaaaaaa", "xxxxxxxx", "dtdtdtdt", "datxdatx", "ttddaaxx"]
     items = []
     for v in (0, 1):
         lay = the_layout(v)
         for i in range(0, len(hs), 8):
             items.append(dict(layout=lay, histories=hs[i:i + 8], plans=plans))
+        for h in long_hs:
+            items.append(dict(layout=lay, histories=[h], plans=[{}] + multi))
     res = core.Result()
     for d in core.parallel("mc.props.c11", "work", items, seed=seed):
         res.merge(d)
     res.states = len(FEEDBACKS) * 3 * 4
-    res.bounds.update(history_depth=depth, layouts=2, feedback_methods_per_owner=len(FEEDBACKS), owners=["component c0", "component c1", "robot"], fault_plans=len(plans))
+    res.bounds.update(long_histories=long_hs, multi_call_fault_plans=[{k: list(v) for k, v in m.items()} for m in multi], history_depth=depth, layouts=2, feedback_methods_per_owner=len(FEEDBACKS), owners=["component c0", "component c1", "robot"], fault_plans=len(plans))
     rule = (
         "two layouts x every driver-station history up to the stated depth (all four modes) x fault plans for selected getters (FMS attached): "
         f"each of 3 owners (two components, the robot) has {len(FEEDBACKS)} @feedback methods (with/without get_ prefix, explicit key=, return "
